@@ -192,8 +192,11 @@ def line_eq(impl, model, tags, rtol, canon=None):
     if canon is not None:
         si, sm = canon(si), canon(sm)
     keys = list(dict.fromkeys(list(si.keys()) + list(sm.keys())))
+    partial = "PARTIAL" in sm   # the model declares that it only answers for the sections it prints
     for k in keys:
-        if tags is not None and k not in tags and k in si and k in sm:
+        if tags is not None and k not in tags:
+            continue
+        if partial and (k not in sm or k == "PARTIAL"):
             continue
         if k not in si or k not in sm:
             return f"section {k} present on one side only"
